@@ -30,6 +30,7 @@ func init() {
 		r.importing = "C15"
 		checkEngineInvariants(r, prog, "c15")
 		checkPegCombinators(r, prog, "c15")
+		checkAnchoring(r, NewGA(prog, g.Tab)) // … starting at the grammar's first rule, whichever way the entry point is chosen
 		r.importing = "C10"
 		checkRecoverDiscipline(r, prog, "c10")
 		if a20 := FindAnchors(prog); len(a20.Missing) == 0 {
@@ -214,6 +215,36 @@ func checkAnchoring(r *Run, ga *GA) {
 	}
 	// the engine starts at g.rules[0]: newParser's entrypoint initialiser
 	r.Check("c15.entry-is-first-rule", "newParser.entrypoint", "grammar/grammar.go", entrypointIsFirstRule(ga.prog), "newParser does not initialise entrypoint with g.rules[0].name")
+	// wherever else the rule table is indexed with a constant (the Entrypoint option's default for the empty name), that
+	// constant is 0: "the entry point" is the first rule everywhere
+	if ga.prog.SSA != nil && ga.prog.GrammarSSA != nil {
+		for _, fn := range ga.prog.ModuleFuncs() {
+			if fn.Pkg != ga.prog.GrammarSSA && (fn.Parent() == nil || fn.Parent().Pkg != ga.prog.GrammarSSA) {
+				continue
+			}
+			k := 0
+			for _, b := range fn.Blocks {
+				for _, ins := range b.Instrs {
+					ia, ok := ins.(*ssa.IndexAddr)
+					if !ok {
+						continue
+					}
+					c, isC := ia.Index.(*ssa.Const)
+					ld, isLd := ia.X.(*ssa.UnOp)
+					if !isC || !isLd || c.Value == nil {
+						continue
+					}
+					fa, isFA := ld.X.(*ssa.FieldAddr)
+					if !isFA || fieldName(fa.X.Type(), fa.Field) != "rules" {
+						continue
+					}
+					k++
+					r.Check("c15.entry-is-first-rule", fmt.Sprintf("%s:rules[const]#%d", fn.Name(), k), ga.prog.pos(ia.Pos()), c.Value.ExactString() == "0",
+						fn.Name()+" takes rule number "+c.Value.ExactString()+" of the table by constant: the default entry point is the first rule, g.rules[0]")
+				}
+			}
+		}
+	}
 }
 
 func entrypointIsFirstRule(prog *Program) bool {
